@@ -487,3 +487,55 @@ def next_total(check: Check, repo: Repo, mods: list[Module], exempt: dict[tuple[
             check.ob(rule, c, node_text(c, 60), ok,
                      f"inside try/except covering StopIteration (line {t.lineno})" if t is not None else
                      (f"exempt: {why}" if why else "no default and no handler for StopIteration"))
+
+
+# -- suggestion_list: rows are allocated for the sequence that indexes them -----------
+
+_LEN_PRESERVING = {"list", "tuple", "sorted", "reversed"}
+
+
+def _len_origin(e: ast.AST, fn: ast.AST, depth: int = 0) -> str:
+    """Canonical text of the sequence whose length `e` has (through length-preserving wrappers)."""
+    if depth > 6:
+        return unparse(e)
+    if isinstance(e, ast.Call) and isinstance(e.func, ast.Name):
+        if e.func.id in _LEN_PRESERVING and len(e.args) == 1:
+            return _len_origin(e.args[0], fn, depth + 1)
+        if e.func.id == "map" and len(e.args) == 2:
+            return _len_origin(e.args[1], fn, depth + 1)
+    if isinstance(e, (ast.Name, ast.Attribute)):
+        text = unparse(e)
+        defs = [
+            s for s in walk_body(fn)
+            if isinstance(s, ast.Assign) and len(s.targets) == 1 and unparse(s.targets[0]) == text
+        ]
+        if len(defs) == 1:
+            return _len_origin(defs[0].value, fn, depth + 1)
+    return unparse(e)
+
+
+def row_alloc(check: Check, repo: Repo, rule: str = "ROW-ALLOC") -> None:
+    check.rule(
+        rule,
+        "LexicalDistance.__init__ sizes the three DP rows from the same sequence that measure() later "
+        "indexes them with: row_size = len(S) + 1 where S has the length of self._input_list (followed "
+        "through list/map/tuple, which preserve length - str.lower() does not: 'I\\u0307'.lower() is longer); "
+        "rows sized by the raw input are too short for such an input and rows[0][j] raises IndexError",
+    )
+    init = repo.func("pyutils.suggestion_list", "LexicalDistance.__init__")
+    want = _len_origin(ast.parse("self._input_list", mode="eval").body, init)
+    sizes = [s for s in walk_body(init) if isinstance(s, ast.Assign) and len(s.targets) == 1 and unparse(s.targets[0]) == "row_size"]
+    if len(sizes) != 1:
+        raise AnalysisError("anchor missing: row_size assignment in LexicalDistance.__init__")
+    lens = [c for c in ast.walk(sizes[0].value) if isinstance(c, ast.Call) and call_name(c) == "len" and len(c.args) == 1]
+    got = [_len_origin(c.args[0], init) for c in lens]
+    ok = len(got) == 1 and got[0] == want
+    check.ob(rule, sizes[0], "row_size = " + unparse(sizes[0].value), ok,
+             f"rows and self._input_list both have the length of `{want}`" if ok else
+             f"rows are sized by `{got}` but indexed up to the length of `{want}`")
+    # the index bound in measure() is the shorter of the two sequences
+    measure = repo.func("pyutils.suggestion_list", "LexicalDistance.measure")
+    swaps = [s for s in walk_body(measure) if isinstance(s, ast.If) and "a_len < b_len" in unparse(s.test)]
+    check.ob(rule, measure, "measure(): b is the shorter sequence", bool(swaps),
+             "a/b are swapped so that b_len <= len(self._input_list) bounds the column index" if swaps else
+             "no swap making b the shorter sequence: the column index can exceed the row size")
